@@ -4,6 +4,7 @@ import (
 	"context"
 	"errors"
 	"fmt"
+	"runtime"
 	"sync/atomic"
 	"testing"
 
@@ -36,6 +37,13 @@ type monReporter struct {
 func (m *monReporter) enter() {
 	if m.inflight.Add(1) > 1 {
 		m.overlap.Add(1)
+	}
+	// widen the window in which a second, concurrent callback would be seen (no clock involved)
+	for i := 0; i < 3; i++ {
+		runtime.Gosched()
+		if m.inflight.Load() > 1 {
+			m.overlap.Add(1)
+		}
 	}
 }
 func (m *monReporter) exit() { m.inflight.Add(-1) }
@@ -104,6 +112,9 @@ func TestC08(t *testing.T) {
 		rng := r.Rng(id)
 		cfg := gen.StdConfig(rng, i)
 		cfg.MaxFiles = 1 + i%5
+		if i%8 == 3 {
+			cfg.CustomOptions = false // nothing imports descriptor.proto explicitly: it is only an implicit dependency
+		}
 		m, err := gen.GenModel(rng, cfg)
 		if err != nil {
 			r.Class("g:model-not-decided")
@@ -116,7 +127,31 @@ func TestC08(t *testing.T) {
 		}
 		names := m.Names()
 		planted := 0
-		if i%4 != 0 {
+		switch i % 8 {
+		case 1, 6:
+			// wide: several more files that depend on nothing and each draw warnings (unused imports), so that
+			// warnings of different files are produced at the same time
+			k := rng.Range(3, 8)
+			for j := 0; j < k; j++ {
+				nme := fmt.Sprintf("wide%d.proto", j)
+				wk := append([]string(nil), gen.WellKnownImports...)
+				vlib.Shuffle(rng, wk)
+				src[nme] = gen.InjectImports(fmt.Sprintf("syntax = \"proto3\";\npackage wide%d;\nmessage W%d { int32 x = 1; }\n", j, j), wk[:rng.Range(1, 4)])
+				names = append(names, nme)
+			}
+			r.Class("shape:wide-with-warnings")
+		case 3:
+			// an overridden descriptor.proto that itself has an error: it is compiled as an implicit dependency of every file
+			ds, err := gen.DescriptorProtoSource()
+			if err != nil {
+				r.Inconclusive("descriptor.proto source: " + err.Error())
+				return
+			}
+			src["google/protobuf/descriptor.proto"] = ds + badSnippet("proto2", 990+i%7, rng.Intn(4))
+			planted++
+			r.Class("shape:erroneous-descriptor.proto-override")
+		}
+		if i%4 != 0 && i%8 != 3 {
 			for k, f := range m.Files {
 				if f.GetName() == "opts/options.proto" || !rng.Chance(0.7) {
 					continue
